@@ -132,14 +132,17 @@ Definition smonitor_trace (sp : spec) (pull : bool) (nsk : nat) (tr : list event
 Definition run_pipe_spec := run_pipe.
 
 (** ** Thread experiments (C18, C19) *)
-From CB Require Export ThreadSpec ThreadsFine ThreadsTakeMerge.
+From CB Require Export ThreadSpec ThreadsFine ThreadsTakeMerge ThreadsTakeCombine.
 
 Inductive tsys : Type :=
 | TsTake (fixed : bool) (max : nat)
 | TsMerge (n : nat)
 | TsCombine (fixed : bool) (n : nat)
 | TsTakeMerge (fixed : bool) (max : nat) (n : nat)   (* take(max) behind merge of n members *)
-| TsMergeFine (fixed : bool) (n : nat).   (* merge with the talkback cells as scheduling points (free=1) *)
+| TsMergeFine (fixed : bool) (n : nat)    (* merge with the talkback cells as scheduling points (free=1) *)
+| TsTakeFine (max : nat)                  (* take, likewise *)
+| TsCombineFine (fixed : bool) (n : nat)  (* combine, likewise: the stuttering extension *)
+| TsTakeCombine (fixed : bool) (max : nat) (n : nat).   (* take(max) behind combine of n members *)
 
 Definition trun (sys : tsys) (nth : nat) (qs : nat -> list val) (fins : nat -> final)
   (sch : list nat) (fuel : nat) : list tevent * list tviol :=
@@ -159,6 +162,16 @@ Definition trun (sys : tsys) (nth : nat) (qs : nat -> list val) (fins : nat -> f
   | TsMergeFine fixed n =>
       let s := run_full (mf_step fixed n) mf_finished nth sch fuel (mf_init fixed n qs fins) in
       let tr := rev (mfs_tr s) in (tr, merge_check_fine n qs fins tr)
+  | TsTakeFine max =>
+      let s := run_full (tkf_step max) tk_finished nth sch fuel (tk_init qs) in
+      let tr := rev (tks_tr s) in (tr, take_check max tr)
+  | TsCombineFine fixed n =>
+      let s := run_full (stut_step (cb_step fixed n)) (stut_finished cb_finished) nth sch fuel
+                 (stut_init (cb_init n qs fins)) in
+      let tr := rev (cbs_tr (st_base s)) in (tr, combine_check n qs fins tr)
+  | TsTakeCombine fixed max n =>
+      let s := run_full (xc_step fixed max n) xc_finished nth sch fuel (xc_init n qs fins) in
+      let tr := rev (xcs_tr s) in (tr, takecombine_check max n qs tr)
   end.
 
 (** the checks alone, for traces recorded from the real crate *)
@@ -170,12 +183,15 @@ Definition tcheck (sys : tsys) (qs : nat -> list val) (fins : nat -> final) (tr 
   | TsCombine _ n => combine_check n qs fins tr
   | TsTakeMerge _ max _ => takemerge_check max tr
   | TsMergeFine _ n => merge_check_fine n qs fins tr
+  | TsTakeFine max => take_check max tr
+  | TsCombineFine _ n => combine_check n qs fins tr
+  | TsTakeCombine _ max n => takecombine_check max n qs tr
   end.
 
 (** for exhaustive exploration by the driver: one step, which threads can move *)
 Inductive tstate : Type :=
 | TSt_take (s : tk_state) | TSt_merge (s : mg_state) | TSt_combine (s : cb_state)
-| TSt_mfine (s : mf_state) | TSt_xm (s : xm_state).
+| TSt_mfine (s : mf_state) | TSt_xm (s : xm_state) | TSt_cbfine (s : stut cb_state) | TSt_xc (s : xc_state).
 
 Definition tinit (sys : tsys) (qs : nat -> list val) (fins : nat -> final) : tstate :=
   match sys with
@@ -184,6 +200,9 @@ Definition tinit (sys : tsys) (qs : nat -> list val) (fins : nat -> final) : tst
   | TsCombine _ n => TSt_combine (cb_init n qs fins)
   | TsTakeMerge _ _ n => TSt_xm (xm_init n qs fins)
   | TsMergeFine fixed n => TSt_mfine (mf_init fixed n qs fins)
+  | TsTakeFine _ => TSt_take (tk_init qs)
+  | TsCombineFine _ n => TSt_cbfine (stut_init (cb_init n qs fins))
+  | TsTakeCombine _ _ n => TSt_xc (xc_init n qs fins)
   end.
 
 Definition tstep1 (sys : tsys) (st : tstate) (t : nat) : tstate :=
@@ -192,6 +211,9 @@ Definition tstep1 (sys : tsys) (st : tstate) (t : nat) : tstate :=
   | TsMerge n, TSt_merge s => TSt_merge (mg_step n s t)
   | TsCombine fixed n, TSt_combine s => TSt_combine (cb_step fixed n s t)
   | TsMergeFine fixed n, TSt_mfine s => TSt_mfine (mf_step fixed n s t)
+  | TsTakeFine max, TSt_take s => TSt_take (tkf_step max s t)
+  | TsCombineFine fixed n, TSt_cbfine s => TSt_cbfine (stut_step (cb_step fixed n) s t)
+  | TsTakeCombine fixed max n, TSt_xc s => TSt_xc (xc_step fixed max n s t)
   | TsTakeMerge fixed max n, TSt_xm s => TSt_xm (xm_step fixed max n s t)
   | _, _ => st
   end.
@@ -203,6 +225,8 @@ Definition tfinished (st : tstate) (t : nat) : bool :=
   | TSt_combine s => cb_finished s t
   | TSt_mfine s => mf_finished s t
   | TSt_xm s => xm_finished s t
+  | TSt_cbfine s => stut_finished cb_finished s t
+  | TSt_xc s => xc_finished s t
   end.
 
 Definition ttrace (st : tstate) : list tevent :=
@@ -212,4 +236,6 @@ Definition ttrace (st : tstate) : list tevent :=
   | TSt_combine s => rev (cbs_tr s)
   | TSt_mfine s => rev (mfs_tr s)
   | TSt_xm s => rev (xms_tr s)
+  | TSt_cbfine s => rev (cbs_tr (st_base s))
+  | TSt_xc s => rev (xcs_tr s)
   end.
